@@ -403,6 +403,29 @@ func ruleStatPositive(c *Ctx, rule string) int {
 				if b, isC := constBool(v); isC && !b {
 					return true
 				}
+				// the answer *is* the test `err == nil` (or its negated opposite)
+				pos := true
+				tv := v
+				for {
+					u, isU := tv.(*ssa.UnOp)
+					if !isU || u.Op != token.NOT {
+						break
+					}
+					pos, tv = !pos, u.X
+				}
+				if bo, isB := tv.(*ssa.BinOp); isB && (bo.Op == token.EQL || bo.Op == token.NEQ) {
+					other := bo.X
+					if isNilConst(bo.X) {
+						other = bo.Y
+					}
+					if (isNilConst(bo.X) || isNilConst(bo.Y)) && ((bo.Op == token.EQL) == pos) {
+						for _, st := range stats {
+							if e := firstOr(resultN(st.Value(), 1)); e != nil && sameValue(resolve(other), resolve(e)) {
+								return true
+							}
+						}
+					}
+				}
 				for _, st := range stats {
 					if knownNilIn(fs, firstOr(resultN(st.Value(), 1)), true) {
 						return true
